@@ -35,12 +35,6 @@ var contentExceptions = map[string]struct {
 	"packets.ReadAndParse":             {1, "zero-length read: a Source contract breach, not packet content; that no module Source returns a zero count for content reasons is decided by R09.1c"},
 }
 
-// notSupportedAllowed: the two capability verdicts the property / C20 allow to end a SACK run.
-var notSupportedAllowed = map[string]string{
-	"(*sack.sackDriver).handleProbeLayers": "ACK on the probed connection without SACK blocks (the property's stated exception)",
-	"(*sack.sackDriver).handleHandshake":   "SYN-ACK without SACK-permitted (capability verdict required by C20)",
-}
-
 func inboundRoots(c *Ctx) (roots []*ssa.Function, names []string) {
 	for _, d := range Drivers(c.P) {
 		roots = append(roots, d.ReceiveProbe)
@@ -167,7 +161,18 @@ func checkErrClasses(c *Ctx, ea *ErrAnalysis, rfs []*ssa.Function, rule string) 
 				ofn = core.FuncName(e.SiteFn)
 				key = fmt.Sprintf("inbound#class[%s]", e.Site)
 			}
-			if why, ok := notSupportedAllowed[ofn]; ok {
+			// the two capability verdicts the property / C20 allow to end a SACK run: created under a guard on the reply in the
+			// ReceiveProbe or ReadHandshake tree of the SACK driver (census shared with C20 R20.2, keyed by region, not by name)
+			allowed, why := false, ""
+			if e.SiteFn != nil {
+				sites, _, _ := notSupportedCensus(c)
+				for _, st := range sites {
+					if st.fn == e.SiteFn && st.ok && (st.region == "recv" || st.region == "handshake") {
+						allowed, why = true, st.why
+					}
+				}
+			}
+			if allowed {
 				R.OK(rule, key, e.Pos, ofn, "capability verdict: "+why)
 			} else {
 				R.Fail(rule, key, e.Pos, ofn, "a NotSupportedError from "+e.Origin+" can end the run on the inbound path ("+reach+"); only the two reviewed capability verdicts may")
